@@ -25,7 +25,9 @@ __TAPKEE_IMPLEMENTATION(KernelPrincipalComponentAnalysis)
         EigendecompositionResult embedding =
             eigendecomposition_via(LargestEigenvalues, centered_kernel_matrix, parameters[target_dimension]);
         for (IndexType i = 0; i < static_cast<IndexType>(parameters[target_dimension]); i++)
-            embedding.first.col(i).array() *= sqrt(embedding.second(i));
+            // (eigenvalues of the centered matrix that are not positive do not contribute to its best
+            // positive semi-definite approximation, rounding makes zero eigenvalues slightly negative)
+            embedding.first.col(i).array() *= sqrt(std::max<ScalarType>(0, embedding.second(i)));
         return TapkeeOutput(embedding.first, unimplementedProjectingFunction());
     }
 __TAPKEE_END_IMPLEMENTATION()
